@@ -1,3 +1,91 @@
-From Coca Require Import Model.JavaFull Model.JavaCallSpec.
-Theorem placeholder : True. Proof. exact I. Qed.
-Print Assumptions placeholder.
+(* C02 -- Recorded call sites are exactly the invocations written in the source.
+   Only statements live here; every proof is [exact <lemma of Proofs/JavaFullProofs.v>]. *)
+From Coq Require Import String List Bool Arith.
+From Coca Require Import Lib.GoMap Lib.Str Model.CodeModel Model.JavaFull Proofs.JavaFullProofs.
+Import ListNotations.
+Open Scope string_scope.
+
+(* 1. an invocation is filed under the function being walked, after the calls already there,
+      with the callee name and a position that is the callee identifier's line, column and
+      column + length *)
+Theorem C02_invocation_recorded : forall st callee target tic inner whole args has_args p,
+    exists c,
+      calls_at (body_event st (ECall callee target tic inner whole args has_args p)) (cur_key st)
+      = (calls_at st (cur_key st) ++ [c])%list /\
+      c_fn c = callee /\
+      c_pos c = mkPos (q_sl p) (q_sc p) (q_el p) (q_sc p + String.length callee) /\
+      c_params c = (if has_args then map (fun a => mkProp "" a) args else []).
+Proof. exact method_call_recorded. Qed.
+Print Assumptions C02_invocation_recorded.
+
+(* 2. a creation is filed the same way and carries the created type *)
+Theorem C02_creation_recorded : forall st var name rest has_body wc p,
+    exists c,
+      calls_at (body_event st (ECreator var (name :: rest) has_body wc p)) (cur_key st)
+      = (calls_at st (cur_key st) ++ [c])%list /\
+      c_node c = name /\ c_type c = "CreatorClass" /\ c_fn c = "".
+Proof. exact creator_recorded. Qed.
+Print Assumptions C02_creation_recorded.
+
+(* 3. in source order, nothing lost, duplicated or attached to a neighbouring function: over a
+      whole body the function's entry only grows by appending, at most one call per event, and
+      no other entry of the class changes *)
+Theorem C02_append_only : forall evs st,
+    (exists cs, calls_at (fold_left body_event evs st) (cur_key st) = (calls_at st (cur_key st) ++ cs)%list /\
+                List.length cs <= List.length evs) /\
+    (forall k, k <> cur_key st -> mget (s_methodMap (fold_left body_event evs st)) k = mget (s_methodMap st) k).
+Proof. exact body_events_append_only. Qed.
+Print Assumptions C02_append_only.
+
+(* 4. the declared type of a receiver name is looked up local variable first, then parameter,
+      then field *)
+Theorem C02_receiver_scoping : forall st x,
+    parse_target_type st x =
+    if negb (String.eqb (mget_d "" (s_localVars st) x) "") then mget_d "" (s_localVars st) x
+    else if negb (String.eqb (mget_d "" (s_formals st) x) "") then mget_d "" (s_formals st) x
+    else if negb (String.eqb (mget_d "" (s_mapFields st) x) "") then mget_d "" (s_mapFields st) x
+    else x.
+Proof. exact parse_target_type_scoping. Qed.
+Print Assumptions C02_receiver_scoping.
+
+(* 5. a receiver whose declared type is a plain imported class name is recorded against that
+      type and the package of its import *)
+Theorem C02_resolution_imported : forall st callee x whole args has_args p T imp,
+    parse_target_type st x = T ->
+    equal_fold (s_clz st) T = false ->
+    pure_of T = T -> T <> "" ->
+    find (fun i => String.eqb i T || has_suffix ("." ++ T) i) (s_imports st) = Some imp ->
+    T <> "super" -> callee <> "super" -> is_chain_call T = false ->
+    exists c,
+      calls_at (body_event st (ECall callee x false "" whole args has_args p)) (cur_key st)
+      = (calls_at st (cur_key st) ++ [c])%list /\
+      c_node c = T /\ c_pkg c = remove_target imp /\ c_fn c = callee.
+Proof. exact resolution_imported. Qed.
+Print Assumptions C02_resolution_imported.
+
+(* 6. an implicit receiver is recorded against the enclosing class and its package *)
+Theorem C02_resolution_implicit : forall st callee whole args has_args p,
+    warp_target_full_type st (parse_target_type st whole) = ("", "") ->
+    parse_target_type st whole = whole ->
+    whole <> "super" -> callee <> "super" ->
+    (forall imp, In imp (s_imports st) -> has_suffix ("." ++ callee) imp = false) ->
+    is_chain_call (s_clz st) = false ->
+    exists c,
+      calls_at (body_event st (ECall callee whole false "" whole args has_args p)) (cur_key st)
+      = (calls_at st (cur_key st) ++ [c])%list /\
+      c_node c = s_clz st /\ c_pkg c = s_pkg st /\ c_fn c = callee.
+Proof. exact resolution_implicit. Qed.
+Print Assumptions C02_resolution_implicit.
+
+(* non-vacuity: a body with a parameter receiver, a creation, a field receiver and an implicit
+   receiver; every hypothesis above is met by these events *)
+Example C02_example :
+  map (fun d => (d_node d, d_type d, d_pkg d, d_path d, d_extend d,
+                 map (fun f => (f_name f, map (fun c => (c_pkg c, c_node c, c_fn c, p_sl (c_pos c), p_sc (c_pos c), p_ec (c_pos c))) (f_calls f)))
+                     (d_funcs d)))
+      (snd (analysis_files fstate0 ["p.q.A"] [ex_unit]))
+  = [("A", "Class", "p.q", "src/A.java", "Base",
+      [("run", [("r.s", "Foo", "go", 6, 6, 8); ("t", "Bar", "", 6, 25, 32); ("t", "Bar", "save", 7, 8, 12);
+                ("p.q", "A", "help", 7, 20, 24)])])].
+Proof. exact ex_unit_calls. Qed.
+Print Assumptions C02_example.
